@@ -292,3 +292,100 @@ Theorem gen_handleAnnounce_filters : forall (A : Type) (addrs filtered : list A)
   end.
 Proof. exact GenTie_C09.handleAnnounce_filters. Qed.
 Print Assumptions gen_handleAnnounce_filters.
+
+(* ------------------------------------------------------------------------------------ *)
+(* Composition with C16: the sequential filter model under concurrent callers.
+   [stepf]/[init]/[run] are the C16 transition system (any number of goroutines in Direct,
+   UncacheCid, Close, Next and the pubsub watcher, one step per synchronisation operation);
+   [filt_step] is the part of the C09 model that lives in the critical sections, state =
+   (closed flag, filter); [lin] reads the filter operations off a schedule in the order of
+   their critical-section steps. *)
+From Lib Require Import LTS.
+From Model Require C16_ReceiverClose.
+From Model Require Import Compose_C09_C16.
+From Proofs Require Import Compose_C09_C16.
+
+(* For EVERY schedule the closed flag and the filter are those of the sequential filter
+   machine run on the calls in lock-acquisition order. *)
+Theorem lts_filter_is_sequential : forall w ls s,
+  run C16_ReceiverClose.stepf (C16_ReceiverClose.init w) ls = Some s ->
+  fstate_of s = snd (filt_run C16_ReceiverClose.cache_cap (false, []) (lin (C16_ReceiverClose.init w) ls)).
+Proof. exact lts_filter_is_sequential_lemma. Qed.
+Print Assumptions lts_filter_is_sequential.
+
+(* The filter machine is the C09 model projected to (closed, filter): every outcome of a
+   C09 call changes that pair exactly as the machine does. *)
+Theorem filter_machine_is_c09_projection : forall c s o r s',
+  In (r, s') (Announce_Receiver.seq_step c s o) ->
+  (Announce_Receiver.closed s', Announce_Receiver.lru s') =
+  match op_fop o with
+  | Some f => snd (filt_step (Announce_Receiver.cap c) (Announce_Receiver.closed s, Announce_Receiver.lru s) f)
+  | None => (Announce_Receiver.closed s, Announce_Receiver.lru s)
+  end.
+Proof. exact seq_step_filter. Qed.
+Print Assumptions filter_machine_is_c09_projection.
+
+(* Hence lru_refines_spec holds for every interleaving: the filter of the concurrent system
+   is the duplicate-filter history of the linearised calls (announcements allowed and before
+   Close, un-cache calls): duplicate free, at most 64, a prefix of the recency list. *)
+Theorem lts_filter_refines_spec : forall w ls s,
+  run C16_ReceiverClose.stepf (C16_ReceiverClose.init w) ls = Some s ->
+  let h := fops_lops false (lin (C16_ReceiverClose.init w) ls) in
+  C16_ReceiverClose.lru s = snd (Announce_Receiver.lru_run C16_ReceiverClose.cache_cap [] h)
+  /\ NoDup (C16_ReceiverClose.lru s) /\ (length (C16_ReceiverClose.lru s) <= C16_ReceiverClose.cache_cap)%nat
+  /\ C16_ReceiverClose.lru s = firstn (length (C16_ReceiverClose.lru s)) (C09_Receiver.live h)
+  /\ (C09_Receiver.no_removes h = true -> C16_ReceiverClose.lru s = firstn C16_ReceiverClose.cache_cap (C09_Receiver.live h)).
+Proof. exact lts_filter_refines_spec_lemma. Qed.
+Print Assumptions lts_filter_refines_spec.
+
+(* deliver_iff under concurrency: at its critical section an allowed announcement goes on
+   to delivery iff its CID is not in the filter determined by the calls linearised before
+   it; otherwise it is dropped as a duplicate. *)
+Theorem lts_direct_passes_iff : forall w ls s t th ch s',
+  run C16_ReceiverClose.stepf (C16_ReceiverClose.init w) ls = Some s ->
+  C16_ReceiverClose.threads s t = Some th -> C16_ReceiverClose.t_pc th = C16_ReceiverClose.DiUpdate ->
+  C16_ReceiverClose.stepf s (C16_ReceiverClose.Step t ch) = Some s' ->
+  exists th', C16_ReceiverClose.threads s' t = Some th' /\
+    (C16_ReceiverClose.t_pc th' = C16_ReceiverClose.DiUnlockGo <->
+     Announce_Receiver.memN (C16_ReceiverClose.call_cid (C16_ReceiverClose.t_call th))
+          (snd (Announce_Receiver.lru_run C16_ReceiverClose.cache_cap [] (fops_lops false (lin (C16_ReceiverClose.init w) ls)))) = false)
+    /\ (C16_ReceiverClose.t_pc th' = C16_ReceiverClose.DiUnlockGo \/ C16_ReceiverClose.t_pc th' = C16_ReceiverClose.DiUnlockDup).
+Proof. exact lts_direct_passes_iff_lemma. Qed.
+Print Assumptions lts_direct_passes_iff.
+
+(* After Close: the flag is final and no announcement touches the filter any more (only an
+   explicit un-cache does); a Direct that started after Close returns ErrClosed. *)
+Theorem closed_filter_frozen : forall w s l s',
+  C16_ReceiverClose.reach w s -> C16_ReceiverClose.closed s = true -> C16_ReceiverClose.stepf s l = Some s' ->
+  C16_ReceiverClose.closed s' = true /\
+  (C16_ReceiverClose.lru s' = C16_ReceiverClose.lru s \/
+   exists k, lin_label s l = [FUncache k] /\ C16_ReceiverClose.lru s' = Announce_Receiver.lru_remove k (C16_ReceiverClose.lru s)).
+Proof. exact closed_filter_frozen_lemma. Qed.
+Print Assumptions closed_filter_frozen.
+
+Theorem late_direct_closed_and_filter_untouched : forall w s t th c r,
+  C16_ReceiverClose.reach w s -> C16_ReceiverClose.threads s t = Some th ->
+  C16_ReceiverClose.t_watcher th = false -> C16_ReceiverClose.t_born_closed th = true ->
+  C16_ReceiverClose.t_call th = C16_ReceiverClose.CDirect true c -> C16_ReceiverClose.t_pc th = C16_ReceiverClose.Fin r ->
+  r = C16_ReceiverClose.RetClosed /\ C16_ReceiverClose.closed s = true
+  /\ (forall l s', C16_ReceiverClose.stepf s l = Some s' ->
+        C16_ReceiverClose.closed s' = true /\
+        (C16_ReceiverClose.lru s' = C16_ReceiverClose.lru s \/
+         exists k, lin_label s l = [FUncache k] /\ C16_ReceiverClose.lru s' = Announce_Receiver.lru_remove k (C16_ReceiverClose.lru s))).
+Proof. exact late_direct_closed_and_filter_untouched_lemma. Qed.
+Print Assumptions late_direct_closed_and_filter_untouched.
+
+(* UncacheCid is harmless at any time, also after Close: its critical section is always
+   executable, only removes the CID, and the system does not panic.  (A Close that dropped the
+   filter - `announceCache = nil` - has no counterpart in the model, where the filter is a
+   list; the harness calls UncacheCid after Close on the real receiver.) *)
+Theorem uncache_harmless_also_after_close : forall w s t th,
+  C16_ReceiverClose.reach w s -> C16_ReceiverClose.threads s t = Some th ->
+  C16_ReceiverClose.t_pc th = C16_ReceiverClose.UnRemove ->
+  exists s', C16_ReceiverClose.stepf s (C16_ReceiverClose.Step t 0%nat) = Some s'
+    /\ C16_ReceiverClose.lru s' = Announce_Receiver.lru_remove (C16_ReceiverClose.call_cid (C16_ReceiverClose.t_call th)) (C16_ReceiverClose.lru s)
+    /\ C16_ReceiverClose.closed s' = C16_ReceiverClose.closed s
+    /\ C16_ReceiverClose.panicked s' = false
+    /\ NoDup (C16_ReceiverClose.lru s').
+Proof. exact uncache_harmless_lemma. Qed.
+Print Assumptions uncache_harmless_also_after_close.
